@@ -189,6 +189,17 @@ def source(ctx, i, rng, d):
                     ["clk_renamed_away"] * rng.choice([0, 1, 1])
                 ctx.count("clock_lists_edited")
         what += " (edited after import)"
+    if n is not None and ext == ".eblif" and rng.random() < 0.2:
+        # instances need not have names either: written without .cname lines, nothing in the file needs them
+        k_ = 0
+        for l_ in n.libraries:
+            for d_ in l_.definitions:
+                for c_ in d_.children:
+                    if c_.name is not None:
+                        del c_.name
+                        k_ += 1
+        ctx.count("instances_left_nameless", k_)
+        what += " (instance names absent)"
     return n, ext, what
 
 
@@ -293,6 +304,8 @@ def run_case(ctx, i, rng):
         elif ext == ".eblif":
             if rng.random() < 0.5:
                 opts["write_eblif_cname"] = rng.choice([True, False])
+            if "(instance names absent)" in what:
+                opts["write_eblif_cname"] = False
             if rng.random() < 0.4:
                 opts["write_blackbox"] = rng.choice([True, False])
         U = Universe.of(n)
